@@ -235,3 +235,65 @@ func genPair(r *RNG, ios bool, maxLen int) (a, b []absLine) {
 	b = distinctByMkey(b)
 	return a, b
 }
+
+// genRemarkBlockPair: a block of lines of one action with a remark line inside; the target inserts a line of
+// the OTHER action directly in front of the remark (or behind it) and moves an overlapping line of the block
+// from below the remark to a place in front of the new line; optional further lines around. The planner has to
+// split the block at the insert position although a remark stands there.
+func genRemarkBlockPair(r *RNG) (a, b []absLine) {
+	blockAct, otherAct := "permit", "deny"
+	if r.Chance(35) {
+		blockAct, otherAct = otherAct, blockAct
+	}
+	mk := func(act string, src int, proto string, port int) absLine {
+		return absLine{Act: act, Proto: proto, Src: src, Port: port}
+	}
+	// nested sources: 1 ⊃ 2 ⊃ 3
+	narrow, wide := 3, 2
+	if r.Chance(30) {
+		narrow, wide = 2, 1
+	}
+	moved := mk(blockAct, narrow, "ip", 0)
+	inserted := mk(otherAct, wide, "ip", 0)
+	if r.Chance(30) {
+		moved.Proto, inserted.Proto = "tcp", "tcp"
+		if r.Chance(50) {
+			moved.Port, inserted.Port = 22, 22
+		}
+	}
+	remark := absLine{Act: "remark", Text: fmt.Sprintf("section%d", r.Intn(3))}
+	filler := func() absLine {
+		return mk(blockAct, Pick(r, []int{4, 5}), Pick(r, []string{"tcp", "udp"}), Pick(r, pktPorts))
+	}
+	var head, mid, tail []absLine
+	for i := r.Intn(3); i > 0; i-- {
+		head = append(head, filler())
+	}
+	for i := r.Intn(3); i > 0; i-- {
+		mid = append(mid, filler())
+	}
+	for i := r.Intn(2); i > 0; i-- {
+		tail = append(tail, filler())
+	}
+	last := []absLine{}
+	if r.Chance(70) {
+		last = append(last, mk(otherAct, 0, "ip", 0))
+	}
+	a = append(a, head...)
+	a = append(a, remark)
+	a = append(a, mid...)
+	a = append(a, moved)
+	a = append(a, tail...)
+	a = append(a, last...)
+	b = append(b, head...)
+	b = append(b, moved)
+	if r.Chance(75) {
+		b = append(b, inserted, remark)
+	} else {
+		b = append(b, remark, inserted)
+	}
+	b = append(b, mid...)
+	b = append(b, tail...)
+	b = append(b, last...)
+	return distinctByMkey(a), distinctByMkey(b)
+}
